@@ -288,6 +288,19 @@ def layout_if(faults, k=0, where=1, style="blank", branch="then"):
     return {"files": {TOP: items}, "top": TOP}
 
 
+def layout_ifinc(faults, k=0, where=2, style="blank"):
+    """text skipped by an inactive #if, then an #include, then the faults: the first position made
+    after the return starts a new line-table segment, so the includer's own line count (which
+    must include the skipped lines) becomes visible.  where: 2 = the k lines are inserted inside
+    the skipped text, 1 = before the #if."""
+    _need(all(ft.phase != "incl" for ft in faults))
+    g = gap(k, style)
+    files = {"inc1.as": [lines(2, "comment")] + _faults_block(faults[:-1]) + [lines(1, "code")]}
+    files[TOP] = prelude() + (g if where == 1 else []) + [if_("PlantedB", False), lines(2, "code")] + (g if where == 2 else []) + \
+        [lines(1, "comment"), endif(), include("inc1.as")] + _faults_block(faults[-1:]) + _uses(faults)
+    return {"files": files, "top": TOP}
+
+
 def layout_inc_line(faults, k=0, where=1, style="blank", n=300, fname="gen.src"):
     """included file whose lines are renumbered by #line (own numbering or another name)."""
     files = {"inc1.as": [lines(1, "comment"), linedir(n, fname)] + (gap(k, style) if where == 1 else []) +
@@ -317,7 +330,7 @@ def layout_eofif(faults, k=0, where=1, style="blank", eofid=9):
 
 
 LAYOUTS = {"same": layout_same, "inc": layout_inc, "line": layout_line, "if": layout_if,
-           "incline": layout_inc_line, "collide": layout_collide, "eofif": layout_eofif}
+           "incline": layout_inc_line, "ifinc": layout_ifinc, "collide": layout_collide, "eofif": layout_eofif}
 
 
 def build(layout, faults, **kw):
